@@ -322,10 +322,12 @@ class _ActionConfigLoad(Action):
             return _ActionConfigLoad(**kwargs)
         parser, namespace, value = args[:3]
         loaded_value = self._load_config(value, parser)
-        if isinstance(namespace.get(self.dest), Namespace):
-            loaded_value = parser.merge_config(
-                Namespace({self.dest: loaded_value}), Namespace({self.dest: namespace[self.dest]})
-            )[self.dest]
+        prev_value = namespace.get(self.dest)
+        if not isinstance(prev_value, Namespace):
+            prev_value = Namespace()  # no group value so far (e.g. defaults=False): 'key+' entries still have to be resolved
+        loaded_value = parser.merge_config(Namespace({self.dest: loaded_value}), Namespace({self.dest: prev_value}))[
+            self.dest
+        ]
         namespace[self.dest] = loaded_value
         return None
 
